@@ -8,6 +8,10 @@
 // references to several slots; a null or uninitialised alternative in such a merge turns every later dereference into a
 // read of an unknown object (measured: the destructor of a QXmppPresence then explores garbage lists).  With live
 // defaults all alternatives are valid objects.
+// Every value lives in its OWN heap object (val[i] points to it): a reference that is a merge of several values then is a
+// choice between distinct objects at offset 0.  (Values embedded in one enclosing object would make the merged reference
+// "object + symbolic offset", and every store through it a byte-level update of the whole enclosing object - measured.)
+// Values are never freed (no leak check is claimed here).
 #pragma once
 #include <QString>
 #include <QList>
@@ -18,36 +22,36 @@ template<typename V, int CAP> class VpSlotMap
 public:
     bool used[CAP];
     QString key[CAP];
-    V val[CAP];
+    V *val[CAP];
 
-    VpSlotMap() { for (int i = 0; i < CAP; i++) used[i] = false; }
-    VpSlotMap(const VpSlotMap &o) { for (int i = 0; i < CAP; i++) { used[i] = o.used[i]; key[i] = o.key[i]; val[i] = o.val[i]; } }
-    VpSlotMap &operator=(const VpSlotMap &o) { if (this != &o) { for (int i = 0; i < CAP; i++) { used[i] = o.used[i]; key[i] = o.key[i]; val[i] = o.val[i]; } } return *this; }
+    VpSlotMap() { for (int i = 0; i < CAP; i++) { used[i] = false; val[i] = new V(); } }
+    VpSlotMap(const VpSlotMap &o) { for (int i = 0; i < CAP; i++) { used[i] = o.used[i]; key[i] = o.key[i]; val[i] = new V(*o.val[i]); } }
+    VpSlotMap &operator=(const VpSlotMap &o) { if (this != &o) { for (int i = 0; i < CAP; i++) { used[i] = o.used[i]; key[i] = o.key[i]; *val[i] = *o.val[i]; } } return *this; }
     ~VpSlotMap() { }
 
-    void clear() { for (int i = 0; i < CAP; i++) { if (used[i]) { used[i] = false; key[i] = QString(); val[i] = V(); } } }
+    void clear() { for (int i = 0; i < CAP; i++) { if (used[i]) { used[i] = false; key[i] = QString(); *val[i] = V(); } } }
     int size() const { int n = 0; for (int i = 0; i < CAP; i++) { if (used[i]) n++; } return n; }
     int count() const { return size(); }
     bool isEmpty() const { return size() == 0; }
     bool contains(const QString &k) const { for (int i = 0; i < CAP; i++) { if (used[i] && key[i] == k) return true; } return false; }
-    V value(const QString &k) const { for (int i = 0; i < CAP; i++) { if (used[i] && key[i] == k) return val[i]; } return V(); }
+    V value(const QString &k) const { for (int i = 0; i < CAP; i++) { if (used[i] && key[i] == k) return *val[i]; } return V(); }
     const V operator[](const QString &k) const { return value(k); }
     void insert(const QString &k, const V &v)
     {
-        for (int i = 0; i < CAP; i++) { if (used[i] && key[i] == k) { val[i] = v; return; } }
-        for (int i = 0; i < CAP; i++) { if (!used[i]) { val[i] = v; key[i] = k; used[i] = true; return; } }
+        for (int i = 0; i < CAP; i++) { if (used[i] && key[i] == k) { *val[i] = v; return; } }
+        for (int i = 0; i < CAP; i++) { if (!used[i]) { *val[i] = v; key[i] = k; used[i] = true; return; } }
         vp_c12_model_limit(false);
     }
     V &operator[](const QString &k)
     {
-        for (int i = 0; i < CAP; i++) { if (used[i] && key[i] == k) return val[i]; }
-        for (int i = 0; i < CAP; i++) { if (!used[i]) { key[i] = k; used[i] = true; return val[i]; } }   // unused slot == default V
+        for (int i = 0; i < CAP; i++) { if (used[i] && key[i] == k) return *val[i]; }
+        for (int i = 0; i < CAP; i++) { if (!used[i]) { key[i] = k; used[i] = true; return *val[i]; } }   // unused slot == default V
         vp_c12_model_limit(false);
-        return val[0];
+        return *val[0];
     }
     int remove(const QString &k)
     {
-        for (int i = 0; i < CAP; i++) { if (used[i] && key[i] == k) { used[i] = false; key[i] = QString(); val[i] = V(); return 1; } }
+        for (int i = 0; i < CAP; i++) { if (used[i] && key[i] == k) { used[i] = false; key[i] = QString(); *val[i] = V(); return 1; } }
         return 0;
     }
     QList<QString> keys() const { QList<QString> r; for (int i = 0; i < CAP; i++) { if (used[i]) r.append(key[i]); } return r; }
